@@ -87,6 +87,21 @@ def run(ctx):
     if mreal == 0:
         raise vlib.ToolError("the gated merge-before-open schedule was never realised")
 
+    # R: the writer is dropped while its merge thread is parked; the NEW writer is parked right after it read
+    # .managed.json (ManagedProto: Acquire / Install) while the old merge thread registers the files of its merged
+    # segment: at the end every file in the directory is in the persisted managed list (F50b)
+    zp = ctx.path("merge_zombie.ndjson")
+    vlib.run_bin("merge_driver", ["gated", "--seed", ctx.seed + 10, "--runs", 4 if ctx.quick else 40, "--only", "drop_during_merge_reload", "--out", zp], timeout=900)
+    zev = vlib.read_ndjson(zp)
+    zruns = [[vlib.strip_nulls(e) for e in r if e.get("ev") in c04.EVS] for r in vlib.split_runs(zev)]
+    zreal = sum(1 for e in zev if e.get("ev") == "schedule" and e.get("realised") and "zombie_registered_meanwhile" in e)
+    n8 = tracecheck.validate_runs(ctx, zruns, "merge_zombie", "MergeTrace", "MergeTrace.cfg", key=lambda r: json.dumps(r[0].get("tag")), timeout=300)
+    ctx.cov["traces_validated_against_impl"] += n8
+    ctx.cov["gated_zombie_merge_vs_new_writer"] = {"runs": len(zruns), "realised": zreal, "accepted": n8}
+    log(f"[R] new writer parked after reading the managed list while the dropped writer's merge thread registers files: {zreal}/{len(zruns)} realised, {n8} accepted")
+    if zreal == 0:
+        raise vlib.ToolError("the zombie-merge schedule was never realised")
+
     # R: a reader of a second Index instance parked in the middle of loading (after it read meta.json /
     # before its first open of a segment file) while the writer commits, merges and collects:
     # the GC must not remove a file the reader still has to open (judged by ReaderTrace: no failing open)
